@@ -8,7 +8,7 @@
    [idp_build] / [t_fixed := true] follow the code WITH proposed_fix/C17-1 and C17-2;
    the *_before_fix theorems keep the defects of the code without them visible. *)
 From PV Require Import Lib.Base Model.Status Model.Response Model.Encrypt
-  Proofs.Response_lemmas Proofs.EncryptSP_lemmas Proofs.Encrypt_lemmas Proofs.EncryptTree_lemmas.
+  Proofs.Response_lemmas Proofs.EncryptSP_lemmas Proofs.Encrypt_lemmas Proofs.EncryptTree_lemmas Proofs.EncryptLoop_lemmas.
 Open Scope Z_scope.
 
 (* ===================== identity provider ===================== *)
@@ -163,6 +163,31 @@ Qed.
 Print Assumptions C17_tree_assertion_facts.
 
 (* --- the code before proposed_fix/C17-2 --- *)
+
+(* the obligation of the design, for the code as it stood: with a tool that fails on an EncryptedData it cannot
+   open (xmlsec1) and does not fail otherwise, the second (verified=True) loop ends with exactly the response-level
+   assertions the verifying call saw, and the plain assertions are the ones checked before decryption — because
+   str(self.response) writes extension elements (a stray EncryptedData child of Response) after all assertions *)
+Theorem C17_second_loop_nothing_new_without_faults :
+  forall keys f1 f2 root t1 fs1 t2 fs2,
+    dec_loop f1 find_encrypt_data keys PFail [] (reserialize root) = Some (t1, fs1) ->
+    dec_loop f2 cond2 keys PFail fs1 t1 = Some (t2, fs2) ->
+    as_of t2 = as_of root /\ ea_as_of t2 = ea_as_of t1.
+Proof.
+  intros keys f1 f2 root t1 fs1 t2 fs2 L1 L2. destruct (two_loops_nothing_new keys f1 f2 root t1 fs1 t2 fs2 L1 L2) as (_ & _ & A & B).
+  split; assumption.
+Qed.
+Print Assumptions C17_second_loop_nothing_new_without_faults.
+
+(* hence the conclusion of C17_second_loop_sees_nothing_new also WITHOUT the repair, but only fault-free *)
+Theorem C17_second_loop_before_fix_partial :
+  forall tc c r root o, t_pol tc = PFail -> parse_response_t tc c r root [] = Ok o ->
+    Forall (fun n => exists req v, a_id (v_a v) = n /\ view_not_bad v /\
+                       exists sa sa', check_assertion c (r_irt r) req false sa (as_checked v) = Ok sa')
+           (o_assertions o).
+Proof. exact tree_same_checks_nofault. Qed.
+Print Assumptions C17_second_loop_before_fix_partial.
+
 Definition me := s2l "https://sp.example.org/sp".
 Definition acs := s2l "https://sp.example.org/acs/post".
 Definition cfgW (b2 : bool) := {| entity_id := me; return_addrs := Some [acs]; wrs := false; was := b2; waors := false;
